@@ -13,7 +13,8 @@ EXPLANATION = (
     "accepted, KeyType Display vs. FromStr, one hex codec. D3: the Layout / Link shims move every field in both "
     "directions (the constant `_type` is checked on the way in) and the hand-written Serialize / Deserialize of the "
     "metadata types delegate to the same shim. D4: what the hand-written decoders store is exactly what they read "
-    "(rule elements, key hash-algorithm list and scheme), with no normalisation or defaulting in between.")
+    "(rule elements, key hash-algorithm list and scheme; for the string newtypes VirtualTargetPath and KeyId the stored text "
+    "is the decoded String, with the constructors they go through inlined), with no normalisation or defaulting in between.")
 DECIDED = ["D1 schema symmetry", "D2 token tables of hand-written (de)serialisers", "D3 shim field mapping in both directions", "D4 decoded values stored unmodified"]
 UNDECIDED = ["equality of values and of re-serialised bytes for all inputs", "interplay of the flattened by-products map with its named siblings", "the order of rule elements (pinned by the rule fixtures)"]
 TRUSTED = ["serde derive semantics", "serde_json round-trips the primitive types"]
@@ -275,4 +276,25 @@ def check_stored_as_read(ctx, S, RULE):
                             ctx.bad(RULE, "ArtifactRule::%s.%s stored as read" % (rv["variant"], fname),
                                     "value is transformed between the wire and the stored rule: <- {%s}" % ", ".join(leaf_s(vb, l) for l in lv), st["at"])
         ctx.ok(RULE, "rule elements stored as read", "%d rule payload fields examined: each is a next_element() result (possibly wrapped in Some)" % n)
+    # string newtypes with a hand-written Deserialize: the stored text is the decoded text (constructors inlined)
+    n_nt = 0
+    for im in fx.impls:
+        if norm(im.get("trait")) != "serde::Deserialize":
+            continue
+        adt = fx.adts.get(im.get("self_adt") or "")
+        if not adt or len(adt["variants"]) != 1 or [fl["ty"] for fl in adt["variants"][0]["fields"]] != ["std::string::String"]:
+            continue
+        for m in im["methods"]:
+            f = fx.fns.get(m["key"])
+            if not f or f.get("exp") or m["name"] != "deserialize":
+                continue
+            n_nt += 1
+            rb = ctx.region(None, policy="all-local", key=f["key"])
+            fld0 = ("f", adt["variants"][0]["fields"][0]["name"])
+            lv = rb.trace({"l": 0, "p": []}, (OK, F0, fld0))
+            okn = bool(lv) and all(l.kind == "call" and (callee_name(l.data[1]) or "").endswith("Deserialize::deserialize") and l.path == (OK, F0) for l in lv)
+            ctx.inst(RULE, "%s stores the decoded string unchanged" % im["self_ty"].split("::")[-1], okn,
+                     "stored text <- {%s}" % ", ".join(leaf_s(rb, l) for l in lv), f["at"])
+    if n_nt == 0:
+        ctx.bad(RULE, "string newtypes", "no hand-written Deserialize impl of a string newtype found (VirtualTargetPath / KeyId expected)")
     keys.check_pubkey_deser(ctx, RULE)
